@@ -208,7 +208,7 @@ def main(tier, replay=None):
             res.violation("no plant site found for fault classes %s in this run" % missing,
                           {"kind": "correspondence", "correspondence": "fault catalogue coverage"}, no_failing_input=True)
     res.coverage.update({
-        "planted_programs": sum(classes.values()), "fault_classes": dict(classes), "site_kinds": dict(kinds),
+        "programs": sum(classes.values()), "planted_programs": sum(classes.values()), "fault_classes": dict(classes), "site_kinds": dict(kinds),
         "known_findings_hit": dict(known), "vhdl_files": len(b.files), "vhdl_lines": b.nlines(),
         "runner_s": round(t_gen, 1), "analysis_s": round(t_an, 1), "class_to_error_codes": {k: sorted(v) for k, v in CLASS_CODES.items()},
         "exhaustive": False,
